@@ -315,8 +315,13 @@ def run(tier, seed):
             for cls, t in (g.get(tab) or {}).items():
                 nalt += t["n"]
         nalt += len(g.get("structs", [])) + len(g.get("accept", []))
+    def nontrivial(c):
+        g = got[(c["fam"], c["i"])]
+        if c["op"] == "valid":
+            return c["exp"]["valid"] != "any"                  # a definite verdict was compared
+        return g.get("sign") == "ok" or g.get("encrypt") == "ok"   # a real signature / ciphertext was made and attacked
     for f, cs in results.items():
-        ck.add_cases(f, len(cs), [json.dumps([c["fam"], c["i"]]) for c in cs])
+        ck.add_cases(f, len(cs), [json.dumps([c["fam"], c["i"]]) for c in cs if nontrivial(c)])
     ck.cov["evaluations"] += nalt
     ck.part("alterations", verdicts_of_the_real_code_compared=nalt)
     # ---- B: recorded cipher calls and verification hash inputs
@@ -341,8 +346,9 @@ def run(tier, seed):
                        "library": {k: (v if not isinstance(v, str) or len(v) < 200 else v[:200] + "...") for k, v in g.items()}}, limit=7)
     ck.cov["rule"] = ("TLC: exhaustive attacker model (MC_PGPMsgSym, up to 3-4 alterations of a symbolic signed object / SEIPD / AEAD message) + one "
                       "state per case of the families %s with the verdict of every tamper class computed from PGPMsg.tla; the real code is run on every "
-                      "octet x mask of every region of every case (evaluations = number of verdicts compared). A case is non-trivial by construction "
-                      "(a real signature / ciphertext); distinct = distinct (family, index). B: recorded AEAD cipher calls and verification hash inputs "
+                      "octet x mask of every region of every case (evaluations = number of cases + number of verdicts of altered inputs compared). A case is "
+                      "non-trivial when a real signature / ciphertext was produced by the library and attacked (for the family valid: when the prescribed "
+                      "verdict is definite); distinct = distinct (family, index). B: recorded AEAD cipher calls and verification hash inputs "
                       "validated by PGPMsgTrace.tla." % ", ".join(sorted(results)))
     ck.cov["exhaustive"] = False
     ck.cov["exhaustive_parts"] = ["every octet of every signature packet, key packet, signed object, SEIPD / AEAD / PKESK packet of the enumerated "
